@@ -390,6 +390,7 @@ class ISD(model.Document):
     styles.StyleProperties.Position,
     styles.StyleProperties.LineHeight,
     styles.StyleProperties.LinePadding,
+    styles.StyleProperties.Disparity,
     styles.StyleProperties.RubyReserve,
     styles.StyleProperties.TextOutline,
     styles.StyleProperties.TextShadow,
@@ -876,6 +877,19 @@ class StyleProcessors:
 
   class Disparity(StyleProcessor):
     style_prop = styles.StyleProperties.Disparity
+
+    @classmethod
+    def compute(cls, parent: model.ContentElement, element: model.ContentElement):
+      element.set_style(
+        cls.style_prop,
+        _compute_length(
+          element.get_style(cls.style_prop),
+          _make_rw_length(100),
+          element.get_style(styles.StyleProperties.FontSize),
+          _make_rw_length(100 / element.get_doc().get_cell_resolution().columns),
+          _make_rw_length(100 / element.get_doc().get_px_resolution().width)
+        )
+      )
 
   class Display(StyleProcessor):
     style_prop = styles.StyleProperties.Display
